@@ -41,21 +41,24 @@ theorem opBad_prog_lookup (i : Nat) (oc : OpCase) (h : opCases[i]? = some oc) (h
 /-- every variable the text reads is registered in `x` with the type the text was generated for -/
 def _root_.BlocV.CApi.OpCase.symsOk (oc : OpCase) (x : Ctx) : Prop := ∀ p ∈ oc.vars, symTyOf x p.1 = some p.2
 
+theorem needWalk_ok (x : Ctx) (code : Nat) : ∀ (l : List (String × Ty)), (∀ p ∈ l, symTyOf x p.1 = some p.2) →
+    needWalk x code l = some code
+  | [], _ => rfl
+  | p :: ps, h => by
+    have hp := h p (by simp)
+    simp only [needWalk, hp, beq_self_eq_true, ↓reduceIte]
+    exact needWalk_ok x code ps (fun q hq => h q (by simp [hq]))
+
 theorem codeIn_of_symsOk (oc : OpCase) (x : Ctx) (h : oc.symsOk x) :
     oc.badExpr.codeIn x = some Gen.EXC_PARSE_TYPE_MISMATCH_S := by
   unfold BadText.codeIn
-  have h1 : (oc.badExpr.needSyms.any fun p => (symTyOf x p.1).isNone) = false := by
-    rw [List.any_eq_false]
-    intro p hp
-    simp [h p hp]
-  have h2 : (oc.badExpr.needSyms.all fun p => symTyOf x p.1 == some p.2) = true := by
-    rw [List.all_eq_true]
-    intro p hp
-    simp [h p hp]
-  simp only [h1, h2]
-  rfl
-
-
+  apply needWalk_ok
+  intro p hp
+  apply h p
+  show p ∈ oc.badExpr.needSyms
+  split at hp
+  · exact List.mem_of_mem_take hp
+  · exact hp
 
 theorem ctx_lt_of_getCtx {s : State} {c : Nat} {x : Ctx} (hx : getCtx s c = some x) : c < s.ctxs.length := by
   have hc := (getCtx_eq_some s c x).1 hx
@@ -385,10 +388,11 @@ theorem runIn_gen (s : State) (c c' : Nat) (x x' x1 : Ctx) (prog : List Stmt) (h
       · exact key _ { writeBack x' st.vars with returned := st.returned } (by simp) wb.1 wb.2 h1
 
 /-- What one call can do to the generation of context slot `c`: it keeps generation and liveness, or installs the
-clock value as the new generation (create, clone into, purge), or leaves the slot dead (free). -/
+clock value as the new generation and advances the clock (create, clone into, purge), or leaves the slot dead with
+generation 0 (free). -/
 theorem step_gen (s s1 : State) (out : Out) (o : Op) (c : Nat) (x x1 : Ctx) (hr : step s o = (s1, out))
     (h0 : s.ctxs[c]? = some x) (h1 : s1.ctxs[c]? = some x1) :
-    (x1.gen = x.gen ∧ x1.live = x.live) ∨ x1.gen = s.clock ∨ x1.live = false := by
+    (x1.gen = x.gen ∧ x1.live = x.live) ∨ (x1.gen = s.clock ∧ s1.clock = s.clock + 1) ∨ (x1.live = false ∧ x1.gen = 0) := by
   cases o <;> simp only [step] at hr
   all_goals first
     | (simp only [opFind, opLoad, opCreate, opVfree, opVdump, opEfree, opEtype, opAcc, opItem,
@@ -510,7 +514,7 @@ theorem genFloor_step (c G : Nat) (s : State) (o : Op) (h : GenFloor c G s) : Ge
   refine ⟨Nat.le_trans h.1 hm, ?_⟩
   intro x1 h1 hl1
   obtain ⟨x, h0⟩ := step_ctx_exists s _ _ o c x1 rfl h1
-  rcases step_gen s _ _ o c x x1 rfl h0 h1 with ⟨hg, hl⟩ | hg | hd
+  rcases step_gen s _ _ o c x x1 rfl h0 h1 with ⟨hg, hl⟩ | ⟨hg, _⟩ | ⟨hd, _⟩
   · rw [hg]; exact h.2 x h0 (by rw [← hl]; exact hl1)
   · rw [hg]; exact h.1
   · rw [hd] at hl1; cases hl1
@@ -620,6 +624,251 @@ theorem step_untargeted (s : State) (o : Op) (d : Nat) (h : targets o s d = fals
 def untargeted (d : Nat) : State → List Op → Bool
   | _, [] => true
   | s, o :: os => !targets o s d && untargeted d (step s o).1 os
+
+
+/-! ### generations of handles: every handle carries a clock value of the past -/
+
+theorem execs_appendSink (s : State) (k : Nat) (b : Bytes) : (appendSink s k b).execs = s.execs := by
+  unfold appendSink; split <;> rfl
+theorem exprs_appendSink (s : State) (k : Nat) (b : Bytes) : (appendSink s k b).exprs = s.exprs := by
+  unfold appendSink; split <;> rfl
+theorem syms_appendSink (s : State) (k : Nat) (b : Bytes) : (appendSink s k b).syms = s.syms := by
+  unfold appendSink; split <;> rfl
+
+theorem runIn_tables (s : State) (c : Nat) (x : Ctx) (prog : List Stmt) :
+    (runIn s c x prog).1.execs = s.execs ∧ (runIn s c x prog).1.exprs = s.exprs ∧ (runIn s c x prog).1.syms = s.syms := by
+  generalize hE : execList x.funcs 0 fuel prog { vars := ctxVars x, returned := x.returned, out := [], budget := 300000 } = res
+  obtain ⟨r, st⟩ := res
+  simp only [runIn, hE]
+  split
+  · simp [bump, execs_appendSink, exprs_appendSink, syms_appendSink]
+  · cases r with
+    | ok fl => simp [bump, execs_appendSink, exprs_appendSink, syms_appendSink]
+    | haz hz => simp [bump, execs_appendSink, exprs_appendSink, syms_appendSink]
+    | unmodelled => simp [bump, execs_appendSink, exprs_appendSink, syms_appendSink]
+    | err cd arg =>
+      simp only
+      split <;> simp [bump, setErr, execs_appendSink, exprs_appendSink, syms_appendSink]
+
+/-- every executable handle after a call was there before, or was created by this call with the generation of a context -/
+theorem step_execs (s : State) (o : Op) (xi : Nat) (h : ExecH) (h1 : (step s o).1.execs[xi]? = some (some h)) :
+    s.execs[xi]? = some (some h) ∨ ∃ (c : Nat) (x : Ctx), s.ctxs[c]? = some x ∧ h.gen = x.gen := by
+  cases o <;> simp only [step] at h1
+  case exec x => 
+    simp only [opExec, Out.pre] at h1
+    (repeat' split at h1) <;> first | exact .inl h1 | (rw [(runIn_tables _ _ _ _).1] at h1; exact .inl h1)
+  case exec2 c x =>
+    simp only [opExec2, Out.pre] at h1
+    (repeat' split at h1) <;> first | exact .inl h1 | (rw [(runIn_tables _ _ _ _).1] at h1; exact .inl h1)
+  case xparse c x t p =>
+    simp only [opXparse, Out.pre] at h1
+    split at h1
+    · rename_i y hg hslot
+      split at h1
+      · simp only [razErr, bump, List.getElem?_set] at h1
+        split at h1
+        · split at h1
+          · simp only [Option.some.injEq] at h1
+            subst h1
+            exact .inr ⟨c, y, getCtx_some hg, rfl⟩
+          · cases h1
+        · exact .inl h1
+      · split at h1
+        · exact .inl (by simpa [setErr, bump] using h1)
+        · exact .inl h1
+    · exact .inl h1
+  case xfree x =>
+    simp only [opXfree, Out.pre, Out.of] at h1
+    (repeat' split at h1) <;> first
+      | exact .inl h1
+      | (simp only [List.getElem?_set] at h1; (repeat' split at h1) <;> first | exact .inl h1 | cases h1)
+  all_goals (
+    simp only [opCnew, opCclone, opCfree, opCpurge, opCpwm, opReg, opStore, opAssign, opEparse, opEval,
+      opDrop, opStop, opCreate, opFind, opLoad, opVfree, opVdump, opEfree, opEtype, opAcc, opItem, opOut,
+      killBoxItems, killCtxItems, killExprVals, Out.pre, Out.of] at h1
+    (repeat' split at h1) <;> first
+      | exact .inl h1
+      | exact .inl (by simpa [setErr, razErr, bump, setVal, setCtx, killWhere, dropSymsOf, staleCtxItems, List.getElem?_set, execs_appendSink, exprs_appendSink, syms_appendSink] using h1))
+
+theorem step_exprs (s : State) (o : Op) (e : Nat) (h : ExprH) (h1 : (step s o).1.exprs[e]? = some (some h)) :
+    s.exprs[e]? = some (some h) ∨ ∃ (c : Nat) (x : Ctx), s.ctxs[c]? = some x ∧ h.gen = x.gen := by
+  cases o <;> simp only [step] at h1
+  case exec x =>
+    simp only [opExec, Out.pre] at h1
+    (repeat' split at h1) <;> first | exact .inl h1 | (rw [(runIn_tables _ _ _ _).2.1] at h1; exact .inl h1)
+  case exec2 c x =>
+    simp only [opExec2, Out.pre] at h1
+    (repeat' split at h1) <;> first | exact .inl h1 | (rw [(runIn_tables _ _ _ _).2.1] at h1; exact .inl h1)
+  case eparse c e' t =>
+    simp only [opEparse, Out.pre] at h1
+    split at h1
+    · rename_i y hg hslot
+      split at h1
+      · simp only [razErr, bump, List.getElem?_set] at h1
+        split at h1
+        · split at h1
+          · simp only [Option.some.injEq] at h1
+            subst h1
+            exact .inr ⟨c, y, getCtx_some hg, rfl⟩
+          · cases h1
+        · exact .inl h1
+      · (repeat' split at h1) <;> first | exact .inl h1 | exact .inl (by simpa [setErr, razErr, bump] using h1)
+    · exact .inl h1
+  case efree x =>
+    simp only [opEfree, killExprVals, Out.pre, Out.of] at h1
+    (repeat' split at h1) <;> first
+      | exact .inl h1
+      | (simp only [killWhere, List.getElem?_set] at h1; (repeat' split at h1) <;> first | exact .inl h1 | cases h1)
+  all_goals (
+    simp only [opCnew, opCclone, opCfree, opCpurge, opCpwm, opReg, opStore, opAssign, opXparse, opEval,
+      opDrop, opStop, opCreate, opFind, opLoad, opVfree, opVdump, opXfree, opEtype, opAcc, opItem, opOut,
+      killBoxItems, killCtxItems, killExprVals, Out.pre, Out.of] at h1
+    (repeat' split at h1) <;> first
+      | exact .inl h1
+      | exact .inl (by simpa [setErr, razErr, bump, setVal, setCtx, killWhere, dropSymsOf, staleCtxItems, List.getElem?_set, execs_appendSink, exprs_appendSink, syms_appendSink] using h1))
+
+theorem dropSyms_entry {s : State} {c sh : Nat} {h : SymH} (h1 : (dropSymsOf s c).syms[sh]? = some (some h)) :
+    s.syms[sh]? = some (some h) := by
+  unfold dropSymsOf at h1
+  simp only [List.getElem?_map] at h1
+  cases hl : s.syms[sh]? with
+  | none => simp [hl] at h1
+  | some v =>
+    cases v with
+    | none => simp [hl] at h1
+    | some y =>
+      simp only [hl, Option.map_some] at h1
+      split at h1
+      · cases h1
+      · simp only [Option.some.injEq] at h1; rw [h1]
+
+theorem step_syms (s : State) (o : Op) (sh : Nat) (h : SymH) (h1 : (step s o).1.syms[sh]? = some (some h)) :
+    s.syms[sh]? = some (some h) ∨ ∃ (c : Nat) (x : Ctx), s.ctxs[c]? = some x ∧ h.gen = x.gen := by
+  cases o <;> simp only [step] at h1
+  case exec x =>
+    simp only [opExec, Out.pre] at h1
+    (repeat' split at h1) <;> first | exact .inl h1 | (rw [(runIn_tables _ _ _ _).2.2] at h1; exact .inl h1)
+  case exec2 c x =>
+    simp only [opExec2, Out.pre] at h1
+    (repeat' split at h1) <;> first | exact .inl h1 | (rw [(runIn_tables _ _ _ _).2.2] at h1; exact .inl h1)
+  case cfree c =>
+    simp only [opCfree, Out.pre] at h1
+    split at h1
+    · exact .inl (dropSyms_entry (s := bump s c _) h1)
+    · exact .inl h1
+  case cpurge c =>
+    simp only [opCpurge, Out.pre] at h1
+    split at h1
+    · exact .inl (dropSyms_entry (s := bump s c _) h1)
+    · exact .inl h1
+  case reg c sh' name major ndim =>
+    simp only [opReg, Out.pre] at h1
+    split at h1
+    · rename_i y hg
+      split at h1
+      · exact .inl h1
+      · split at h1
+        · simp only [bump, List.getElem?_set] at h1
+          split at h1
+          · split at h1
+            · simp only [Option.some.injEq] at h1
+              subst h1
+              exact .inr ⟨c, y, getCtx_some hg, rfl⟩
+            · cases h1
+          · exact .inl h1
+        · simp only [setErr, bump, List.getElem?_set] at h1
+          (repeat' split at h1) <;> first | exact .inl h1 | cases h1
+    · exact .inl h1
+  case find c sh' name =>
+    simp only [opFind, Out.pre, Out.of] at h1
+    split at h1
+    · rename_i y hg
+      split at h1
+      · exact .inl h1
+      · split at h1
+        · simp only [List.getElem?_set] at h1
+          split at h1
+          · split at h1
+            · simp only [Option.some.injEq] at h1
+              subst h1
+              exact .inr ⟨c, y, getCtx_some hg, rfl⟩
+            · cases h1
+          · exact .inl h1
+        · simp only [List.getElem?_set] at h1
+          (repeat' split at h1) <;> first | exact .inl h1 | cases h1
+    · exact .inl h1
+  all_goals (
+    simp only [opCnew, opCclone, opCpwm, opStore, opAssign, opXparse, opEparse, opEval,
+      opDrop, opStop, opCreate, opLoad, opVfree, opVdump, opXfree, opEfree, opEtype, opAcc, opItem, opOut,
+      killBoxItems, killCtxItems, killExprVals, Out.pre, Out.of] at h1
+    (repeat' split at h1) <;> first
+      | exact .inl h1
+      | exact .inl (by simpa [setErr, razErr, bump, setVal, setCtx, killWhere, staleCtxItems, List.getElem?_set, execs_appendSink, exprs_appendSink, syms_appendSink] using h1))
+
+
+/-- Generations are clock values of the past: every context's generation and the generation every executable,
+expression and symbol handle of the host carries are below the clock. -/
+def HandleWF (s : State) : Prop :=
+  (∀ (c : Nat) (x : Ctx), s.ctxs[c]? = some x → x.gen < s.clock) ∧
+  (∀ (xi : Nat) (h : ExecH), s.execs[xi]? = some (some h) → h.gen < s.clock) ∧
+  (∀ (e : Nat) (h : ExprH), s.exprs[e]? = some (some h) → h.gen < s.clock) ∧
+  (∀ (sh : Nat) (h : SymH), s.syms[sh]? = some (some h) → h.gen < s.clock)
+
+theorem handleWF_init : HandleWF State.init := by
+  refine ⟨?_, ?_, ?_, ?_⟩
+  · intro c x h
+    simp only [State.init] at h
+    have : x = ({} : Ctx) := by
+      rw [List.getElem?_replicate] at h
+      split at h <;> simp_all
+    subst this
+    decide
+  · intro xi h hh
+    simp only [State.init, List.getElem?_replicate] at hh
+    split at hh <;> simp at hh
+  · intro xi h hh
+    simp only [State.init, List.getElem?_replicate] at hh
+    split at hh <;> simp at hh
+  · intro xi h hh
+    simp only [State.init, List.getElem?_replicate] at hh
+    split at hh <;> simp at hh
+
+theorem handleWF_step' (s s1 : State) (out : Out) (o : Op) (hr : step s o = (s1, out)) (hw : HandleWF s) : HandleWF s1 := by
+  have hm := step_clock_mono s s1 out o hr
+  have e1 : s1 = (step s o).1 := by rw [hr]
+  obtain ⟨w1, w2, w3, w4⟩ := hw
+  have new : ∀ (g : Nat), (∃ (c : Nat) (x : Ctx), s.ctxs[c]? = some x ∧ g = x.gen) → g < s1.clock := by
+    rintro g ⟨c, x, hx, rfl⟩
+    exact Nat.lt_of_lt_of_le (w1 c x hx) hm
+  refine ⟨?_, ?_, ?_, ?_⟩
+  · intro c x1 h1
+    obtain ⟨x, h0⟩ := step_ctx_exists s s1 out o c x1 hr h1
+    have hx := w1 c x h0
+    rcases step_gen s s1 out o c x x1 hr h0 h1 with ⟨hg, _⟩ | ⟨hg, hc⟩ | ⟨_, hg⟩ <;> omega
+  · intro xi h hh
+    rw [e1] at hh
+    rcases step_execs s o xi h hh with h0 | hn
+    · exact Nat.lt_of_lt_of_le (w2 xi h h0) hm
+    · exact new _ hn
+  · intro e h hh
+    rw [e1] at hh
+    rcases step_exprs s o e h hh with h0 | hn
+    · exact Nat.lt_of_lt_of_le (w3 e h h0) hm
+    · exact new _ hn
+  · intro sh h hh
+    rw [e1] at hh
+    rcases step_syms s o sh h hh with h0 | hn
+    · exact Nat.lt_of_lt_of_le (w4 sh h h0) hm
+    · exact new _ hn
+
+theorem handleWF_step (s : State) (o : Op) (hw : HandleWF s) : HandleWF (step s o).1 :=
+  handleWF_step' s _ _ o rfl hw
+
+theorem handleWF_runSeq : ∀ (ops : List Op) (s : State), HandleWF s → HandleWF (runSeq s ops).1
+  | [], _, h => h
+  | o :: os, s, h => by
+    simp only [runSeq]
+    exact handleWF_runSeq os (step s o).1 (handleWF_step s o h)
 
 
 end BlocV.C15
